@@ -59,7 +59,7 @@ ASSUMPTIONS = [
 PROBES = ["mixed_cell_shapes_2d", "two_subdomains_same_dim_different_mix", "polyhedral_3d", "interface_data", "vector_data", "ge_11_exports", "non_integer_times",
           "times_closer_than_1e-6", "crash_in_times_json", "crash_in_vtu", "crash_in_step_pvd", "crash_in_collecting_pvd", "crash_between_exports", "torn_file",
           "restart_route_pvd", "restart_route_mdg_pvd", "restart_route_vtu", "second_restart", "third_restart", "restart_raised_after_midexport_crash",
-          "continue_after_restart", "readonly_import_of_older_step", "zero_d_subdomain", "export_after_vtu_route_restart_raises"]
+          "continue_after_restart", "crash_during_restart_before_any_output", "data_tuples_not_in_mdg_order", "readonly_import_of_older_step", "zero_d_subdomain", "export_after_vtu_route_restart_raises"]
 
 KEYS_SD = ["p"]
 
@@ -90,7 +90,15 @@ class Host(pp.DataSavingMixin):
         if self._key_intf:
             for g, d in self.mdg.interfaces(return_data=True, codim=1):
                 out.append((g, self._key_intf, d[pp.TIME_STEP_SOLUTIONS][self._key_intf][0]))
+        # the order in which a model lists its (grid, key, values) tuples is the caller's choice
+        order = getattr(self, "tuple_order", None)
+        if order is not None and len(order) == len(out):
+            out = [out[i] for i in order]
         return out
+
+    def n_tuples(self):
+        n = len(self._keys_sd) * len(self.mdg.subdomains())
+        return n + (len(self.mdg.interfaces(codim=1)) if self._key_intf else 0)
 
 
 def gen_world(ch, tr):
@@ -296,6 +304,15 @@ def run_exporter(ch, tr: Trace) -> None:
             prev = durable.get(k)
             durable[k] = rec
             durable_inprogress[0] = (k, prev)
+            ch.begin("tuple-order")
+            try:
+                mode = ch.draw(3)  # 0: md-grid order, 1: reversed, 2: shuffled
+                n_t = sess["host"].n_tuples()
+                sess["host"].tuple_order = None if mode == 0 else (list(range(n_t))[::-1] if mode == 1 else ch.shuffle(range(n_t)))
+                if mode and n_t > 1:
+                    tr.probe("data_tuples_not_in_mdg_order")
+            finally:
+                ch.end()
             try:
                 sess["host"].write_pvd_and_vtu()
             except SimCrash:
@@ -510,10 +527,10 @@ MANIFEST = {
 
 # --------------------------------------------------------------------------------------
 # L2: the real model run, crashed and restarted through params['restart_options']
-def run_model_level(ch, tr: Trace) -> None:
+def run_model_level(ch, tr: Trace, families=("flow",)) -> None:
     from engines import driver_sim
 
-    sim = driver_sim.DriverSim(ch, tr, owner="C38", export=True)
+    sim = driver_sim.DriverSim(ch, tr, owner="C38", export=True, families=families)
     sim.configure()
     with ch.span("config2"):
         # restarts do not restore the schedule cursor (seen, outside the given properties): keep one scheduled interval
@@ -600,7 +617,8 @@ def run_model_level(ch, tr: Trace) -> None:
                         tr.fault("torn-write", kind)
                         tr.probe("torn_file")
                     crashed = True
-                    after_mid = f[2] != "between"
+                    if folder.exists() or ro is None:
+                        after_mid = f[2] != "between"
                 seam.plan.clear()
                 state["crash_after_export"] = None
                 if not crashed:
@@ -614,6 +632,13 @@ def run_model_level(ch, tr: Trace) -> None:
                     tr.probe("second_restart")
                 if cycle == 3:
                     tr.probe("third_restart")
+                if not folder.exists():
+                    # the restarted process died while still *reading* the reference folder, before it wrote anything:
+                    # nothing new is durable, the next process restarts from the same files with the same options
+                    tr.probe("crash_during_restart_before_any_output")
+                    tr.emit("crashed-while-restarting")
+                    sim.attempt = 0
+                    continue
                 ref = Path(root) / f"ref{cycle}"
                 shutil.move(str(folder), str(ref))
                 k_last = state["last_complete"]
@@ -674,5 +699,18 @@ WORKLOADS.append(
         name="model", run=run_model_level, runs={"quick": 96, "thorough": 3_000}, chunk=6, run_timeout=400.0,
         real=["the real SinglePhaseFlow model run: pp.run_time_dependent_model, NewtonSolver, SolutionStrategy.prepare_simulation/reset_state_from_file, DataSavingMixin.save_data_time_step/load_data_from_pvd/load_data_from_vtu, Exporter, TimeManager time I/O, restart through params['restart_options']"],
         stub=["open() interposer (crash at a drawn crossing, torn file)", "fault-injecting overrides of check_convergence/solve_linear_system (failed steps are exported too, as the code does)"],
+    )
+)
+
+
+def run_model_level_mp(ch, tr: Trace) -> None:
+    run_model_level(ch, tr, families=("energy", "mech", "poro"))
+
+
+WORKLOADS.append(
+    Workload(
+        name="model_mp", run=run_model_level_mp, runs={"quick": 32, "thorough": 1_200}, chunk=2, run_timeout=600.0,
+        real=["as workload model, physics = MassAndEnergyBalance / MomentumBalance with contact mechanics / Poromechanics: vector-valued displacement, interface displacement, contact traction, temperature and enthalpy-flux variables are exported, crashed, imported and compared"],
+        stub=["open() interposer (crash at a drawn crossing, torn file)", "fault-injecting overrides of check_convergence/solve_linear_system"],
     )
 )
